@@ -108,10 +108,9 @@ theorem Conn.lt_of_valid {n : Nat} {F : List Edge} (hF : Valid n F) {a b : Nat} 
 /-- `lab` gives two nodes the same label exactly when `F` joins them -/
 def Rep (lab : Lab) (F : List Edge) : Prop := ∀ i j, lab.f i = lab.f j ↔ Conn F i j
 
-@[simp] theorem union_f (lab : Lab) (a b i : Nat) :
-    (union lab a b).f i = if lab.f i = lab.f b then lab.f a else lab.f i := rfl
+attribute [simp] union_f Lab.id_f
 
-theorem rep_id : Rep Lab.id [] := fun i j => by simp [Lab.id, conn_nil]
+theorem rep_id : Rep Lab.id [] := fun i j => by simp [conn_nil]
 
 theorem rep_union {lab : Lab} {F : List Edge} (h : Rep lab F) (e : Edge) :
     Rep (union lab e.u e.v) (F ++ [e]) := by
@@ -161,7 +160,9 @@ theorem labOf_snoc (F : List Edge) (e : Edge) : labOf (F ++ [e]) = union (labOf 
 def cnt (n : Nat) (lab : Lab) : Nat := ((Finset.range n).image lab.f).card
 
 theorem cnt_id (n : Nat) : cnt n Lab.id = n := by
-  unfold cnt Lab.id
+  unfold cnt
+  have : Lab.id.f = fun i => i := funext Lab.id_f
+  rw [this]
   simp
 
 theorem cnt_le (n : Nat) (lab : Lab) : cnt n lab ≤ n := by
